@@ -7,20 +7,20 @@ ROOT = Path(__file__).resolve().parent.parent
 ENGINE = "coq-proof+correspondence"
 
 P = {
- "C01": ("generic merge-tree theorem (any number of shards incl. empty ones, any merge tree, fresh or updated targets, post-merge updates) proved once in Coq over a metric algebra; instances for the additive, cache, semilattice, streaming-moment, ordered-cache and ring-buffer families (per-class corollaries in Props/C01_*.v); documented deviations (Throughput, ordered metrics, windows, retrieval) have their own closed forms or refutations",
+ "C01": ("generic merge-tree theorem (any number of shards incl. empty ones, any merge tree, fresh or updated targets, post-merge updates) proved once in Coq over a metric algebra; instances for the additive, cache, semilattice, streaming-moment, ordered-cache and ring-buffer families (per-class corollaries in Props/C01_*.v); documented deviations (Throughput, ordered metrics, windows, retrieval) have their own closed forms or refutations; windowed classes: lifetime value and total_updates exact for EVERY merge tree and later updates (window_lifetime_any_merge_tree), closed form of the windowed value of nested / sequential merges (window_value_any_merge_tree, window_sequential_merge_window)",
          "exact arithmetic: float re-association is absorbed by a 2^-17 / 2^-40 tolerance on exactly representable inputs; models tied to the classes by state-level history correspondence (differential); classes without Alg instance (MSE/R2/PSNR/NE/Perplexity/AUC/Wasserstein adoption shapes, retrieval) are covered by the correspondence and the direct merge-tree-vs-single stream only",
          "Coq proof (nested induction over merge trees, monoid homomorphism) + differential correspondence of executable Gallina models (extracted OCaml, cross-checked by vm_compute)"),
- "C03": ("generic theorem class(update*; compute) = gamma(beta(concatenation)) for every monoid-abstracted metric whose batch statistic is additive over concatenation; functional-form models per class tied to the real functionals; class-vs-functional executed on every catalogue class; constructor defaults exercised for every class",
+ "C03": ("generic theorem class(update*; compute) = gamma(beta(concatenation)) for every monoid-abstracted metric whose batch statistic is additive over concatenation; functional-form models per class tied to the real functionals; class-vs-functional executed on every catalogue class, half of the trials with the same numbers in another presentation (float64 scores, uint8/int8/int16/int32 labels, non-contiguous views); binned classes on boundary scores (on / one ulp beside every threshold, float64 scores beside float32 thresholds); constructor defaults exercised for every class",
          "presentation differences (leading num_tasks dimension, dtype width) are normalised before comparison; additivity of beta over concatenation is proved for Mean/Sum and by the family builders where stated, otherwise tied by correspondence",
          "Coq proof (corollary of the merge-tree theorem) + three-way differential correspondence class / functional / model"),
- "C04": ("algo = textbook-count theorems for thresholding, argmax, top-k rank rule, scatter/COO counting, every average and every confusion-matrix normalisation, NaN conventions via extended rationals, totality on valid input; exhaustive small-domain comparison impl vs algo vs spec",
+ "C04": ("algo = textbook-count theorems for thresholding, argmax, top-k rank rule, scatter/COO counting, every average and every confusion-matrix normalisation, NaN conventions via extended rationals, totality on valid input; exhaustive small-domain comparison impl vs algo vs spec; the correspondence is repeated with float64 scores / narrow integer labels / non-contiguous views, with 130-300 samples per call (narrow counts wrap) and with 129 / 130 / 257 classes",
          "multilabel / top-k multilabel criteria proved per sample (batch lifting tied, not proved); torch.topk tie choice taken from torch and checked admissible by the model",
          "Coq proof (induction over sample lists) + exhaustive small domains + random correspondence"),
- "C05": ("AUROC pipeline = weighted pairwise statistic with ties 1/2 for EVERY descending-sorted permutation; PR points = counts >= threshold per distinct score followed by (1,0); AUPRC = Riemann sum; recall@precision = max recall among qualifying points; multiclass/multilabel = one-vs-rest / per-label; all ten classes modelled and tied",
+ "C05": ("AUROC pipeline = weighted pairwise statistic with ties 1/2 for EVERY descending-sorted permutation; PR points = counts >= threshold per distinct score followed by (1,0); AUPRC = Riemann sum; recall@precision = max recall among qualifying points; multiclass/multilabel = one-vs-rest / per-label; all ten classes modelled and tied (also with 129 / 130 / 257 classes or labels and in float64 / narrow-label presentations)",
          "exact arithmetic over Qc; scores on a dyadic grid (legitimate because scores are only compared: C17); use_fbgemm=False only",
          "Coq proof (collapse/groups/closed form, permutation invariance) + exhaustive 3-grid enumeration n<=5/6 + tie-swept random correspondence"),
- "C06": ("searchsorted/histc/suffix-sum pipeline = per-threshold counting for any sorted threshold list (duplicates allowed); vectorized = memory mode (flattened index bijection); binned AUROC = exact AUROC of floored scores (full), binned AUPRC floor (partial: last Riemann-sum step tied, not proved)",
-         "integer thresholds generated only with n-1 a power of two so that linspace is exact on the grid; float32 rounding of thresholds within one ulp of a score not modelled",
+ "C06": ("searchsorted/histc/suffix-sum pipeline = per-threshold counting for any sorted threshold list (duplicates allowed); vectorized = memory mode (flattened index bijection); binned AUROC = exact AUROC of floored scores (full), binned AUPRC = exact AUPRC of floored scores; boundary stream: every threshold form (int -> linspace, list, float32 / float64 tensor) with float32 and float64 scores on / one ulp beside every threshold against exact counting, mode vs mode and the floor theorems",
+         "in the model-based streams integer thresholds are generated only with n-1 a power of two so that linspace is exact on the grid; the float32 rounding of thresholds next to a score is covered at implementation level by the boundary stream (exact comparison in float64), not by the model",
          "Coq proof + both-modes differential + exhaustive n<=4 over a 5-point grid"),
  "C07": ("exact-arithmetic theorems: Chan/streaming covariance = two-pass, R2 sufficient statistics = definition (all modes, adjusted, guards), weighted MSE incl. clamp denominator, trapezoid AUC with stable sort, PSNR/NE/perplexity sufficient statistics (log/exp symbolic), throughput; Wasserstein partial",
          "PARTIAL w.r.t. floating-point rounding: theorems are over Q; inputs are well-conditioned and exactly representable; Frechet distance eigenvalue routine uninterpreted; FrechetAudioDistance has no value model",
@@ -34,8 +34,8 @@ P = {
  "C10": ("reset ~ fresh bisimulation for registered-only models; generated registry/reset table (attributes re-bound by an overriding reset() accepted); reset-vs-fresh executed on every class with continuations long enough to wrap windows",
          "same trusted base as C09",
          "Coq proof + AST translation regenerated each run + differential reset checks"),
- "C11": ("soundness theorem of the flow-insensitive alias check (in-place writes of a checked class only reach locations private to the writer), compute-purity, functional-argument immutability over skeletons regenerated from the AST of every class/functional; value-model frame theorems; storage/argument checks on every class incl. deferred checks of earlier arguments",
-         "soundness is relative to the classification of torch operations as aliasing/fresh (trusted table, exercised dynamically)",
+ "C11": ("soundness theorem of the flow-insensitive alias check (in-place writes of a checked class only reach locations private to the writer), compute-purity, functional-argument immutability over skeletons regenerated from the AST of every class/functional; value-model frame theorems; storage/argument checks on every class incl. deferred checks of earlier arguments; sync clause: PrepLaws (prep idempotent, invisible to compute and to every later observation) proved for the additive and cache functors and all 16 classes overriding _prepare_for_merge_state, sync_leaves_local_results_unchanged / sync_repeatable / synced_metric_is_independent; every class synced on the checking transport (local compute before/after, first vs second sync)",
+         "soundness is relative to the classification of torch operations as aliasing/fresh (trusted table, exercised dynamically); that the toolkit writes the local object only through _prepare_for_merge_state is modelled (tied by the effect skeletons and the sync stream), not derived from the protocol model",
          "Coq proof (heap semantics, invariant preservation) + AST translation regenerated each run + differential non-interference checks"),
  "C12": ("order invariance (permutation of updates with commutative abstraction) and batching invariance (additive beta) proved generically; per-family corollaries; the same sample multiset re-batched / re-ordered on the real classes",
          "per-sample-order metrics and AUC(reorder=False) exempt as documented; retrieval under tie-free scores",
@@ -43,20 +43,20 @@ P = {
  "C13": ("ring buffer refines 'last N updates' queue for the four update-granular classes (windowed and lifetime values), sample-granular buffer holds the last N samples (three insertion cases) and compute() = AUROC spec of exactly those samples for all scores incl. 0 and all window sizes (model of the repaired code; the pre-fix variant keeps its refutations); window_merge_pools for merges; step-by-step state correspondence and windowed-vs-non-windowed direct stream in which the harness overwrites the tensors it passed",
          "NE log terms symbolic; permutation invariance of the AUROC kernel imported from C05",
          "Coq proof (refinement invariant by induction over updates) + step-by-step correspondence"),
- "C14": ("commit-order soundness (a raising update has written nothing) over skeletons regenerated from the AST with a discharge list; failure atomicity and survival executed by fault injection in sandboxed workers at every position of valid histories; functional arguments bit-identical",
+ "C14": ("commit-order soundness (a raising update has written nothing) over skeletons regenerated from the AST with a discharge list; failure atomicity and survival executed by fault injection in sandboxed workers at every position of valid histories (single-argument faults, out-of-range indices, and JOINT re-layouts of all data arguments that only the metric's own layout contract can reject); functional arguments bit-identical",
          "PARTIAL: memory safety / not crashing / not hanging are properties of native kernels; the proof covers the Python layer's commit discipline only; worker exit status is supporting evidence",
          "Coq proof (abstract Clean/Dirty execution) + AST translation + sandboxed fault injection"),
  "C15": None, "C02": None,
  "C16": ("masked_scatter row-locality and 2-D AUROC kernel = row-wise map of the 1-D kernel, multiclass PR pipeline decomposition (Props/C16_auroc.v); multi-slice vs single-slice results executed on every sliced metric with slices of different tie structure and degeneracy",
          "metrics implemented as Python loops / sum(dim) over slices are definitional (assurance = correspondence)",
          "Coq proof + differential slice decomposition"),
- "C17": ("order-only dependence of the rank specs (AUROC pairwise statistic, PR counts, rank rule), degree-0 homogeneity in weights, duplication and class-permutation equivariance proved on the specs that C04/C05/C08 tie to the code; metamorphic pairs executed on inputs up to 5000 samples",
-         "maps restricted to exact strictly increasing maps on the dyadic grid; power-of-two weight factors",
+ "C17": ("order-only dependence of the rank specs (AUROC pairwise statistic, PR counts, rank rule), degree-0 homogeneity in weights, duplication and class-permutation equivariance proved on the specs that C04/C05/C08 tie to the code; metamorphic pairs executed on inputs up to 90000 samples, with maps that squeeze all scores into a band below float32 resolution, negative scores, weight factors 2^-40 .. 2^40, functional and class forms",
+         "maps restricted to exact strictly increasing maps on the dyadic grid (float64); power-of-two weight factors",
          "Coq proof (corollaries of specs) + metamorphic differential testing on large inputs"),
- "C18": ("check <-> documented shape contract equivalence proved per input-check function over ShapeLang terms regenerated from the AST on every run; exhaustive single-argument shape perturbation of valid calls compared with the contract verdict",
+ "C18": ("check <-> documented shape contract equivalence proved per input-check function over ShapeLang terms regenerated from the AST on every run; exhaustive single-argument shape perturbation of valid calls (incl. two extra dimensions and trailing dimensions that broadcast against the sample dimension) compared with the contract verdict",
          "value-dependent conditions are opaque atoms; contracts hand-written from docstrings",
          "Coq proof over AST-regenerated definitions + exhaustive perturbation"),
- "C19": ("RNE accumulator model: every history of non-negative integer increments is counted exactly by wide kinds up to 2^53; every narrow kind refuted; the table of accumulator kinds is re-introspected from /repo each run and proved wide-or-known; update and merge paths executed on injected boundary states bit-exactly",
+ "C19": ("RNE accumulator model: every history of non-negative integer increments is counted exactly by wide kinds up to 2^53; every narrow kind refuted; the table of accumulator kinds is re-introspected from /repo each run and proved wide-or-known; update and merge paths executed on injected boundary states bit-exactly; ADDEND PATH: model acc_add_via (roundings through the kinds an addend passes before the accumulator), totals_exact_for_wide_paths / narrow_path_refuted, path table re-introspected each run and proved wide-or-known (all_paths_wide_or_known, path_excuses_are_live); large-addend stream with an exact integer oracle",
          "non-integer weights outside the exactness theorem; RNE is a Z-level definition validated bit-exactly against torch on the boundary sweep",
          "Coq proof + dynamic introspection regenerated each run + bit-exact boundary injection"),
 }
